@@ -10,7 +10,7 @@ use std::cell::RefCell;
 use std::collections::BTreeMap;
 use std::rc::Rc;
 
-use explorer::task::{disown_select, own_select, End, Exec};
+use explorer::task::{disown_select, End, Exec};
 use explorer::{catch, dfs_par, json, Chooser, DfsCfg, Report};
 use futures_channel::mpsc;
 use p2panda_core::{Operation, Topic};
@@ -92,6 +92,22 @@ fn err_kind(e: &TopicLogSyncError) -> String {
         TopicLogSyncError::UnexpectedStreamClosure => "UnexpectedStreamClosure".into(),
         TopicLogSyncError::DecodeMessage(_) => "DecodeMessage".into(),
     }
+}
+
+/// Like `explorer::task::own_select`, but only the first `cap` select! start-branch decisions of
+/// an execution are chooser decisions (later ones take branch 0): a session spinning in its
+/// select loop must not blow up the choice vector.
+fn own_select_capped(ch: &Chooser, cap: usize) {
+    let ch = ch.clone();
+    let mut n_seen = 0usize;
+    tokio::verif::set_select_hook(Some(Box::new(move |n| {
+        n_seen += 1;
+        if n_seen > cap {
+            0
+        } else {
+            ch.choose(n as usize, "select") as u32
+        }
+    })));
 }
 
 /// One successful transcript of a session against the scripted remote.
@@ -282,7 +298,7 @@ fn run_one(v: &Variant, faults: Faults<Msg>, ch: &Chooser, late: bool) -> Obs {
         }));
     }
     let result: Rc<RefCell<Res>> = Rc::new(RefCell::new(Res::Pending));
-    own_select(ch);
+    own_select_capped(ch, 48);
     let end = {
         let result = result.clone();
         catch(|| {
@@ -517,7 +533,7 @@ pub fn run(mut rep: Report) -> i32 {
     rep.assume("the remote is scripted: it does not validate what the session sends, it only reacts to a Close frame (closes its stream) where the variant says so");
     rep.assume("exactly one fault per execution; store faults (TopicStore::resolve, LogStore) and a broadcast channel without receivers are outside the fault alphabet");
     rep.assume("Failed may follow SessionStarted directly (documented: 'followed by SyncStarted or Failed'); run() returning Ok must end in SessionFinished and Err in Failed (documented on the two variants)");
-    rep.assume("a stream that ended keeps returning None; polling it more than 5000 times in one execution is judged a busy loop");
+    rep.assume("a stream that ended keeps returning None; polling it more than 300 times in one execution is judged a busy loop");
     rep.assume("MemStore (refmodel) instead of SqliteStore; single task on E-TASK, no tokio runtime");
 
     let vs = variants();
